@@ -147,7 +147,7 @@ def tlc(name, cfg, module, workers=8, extra="", timeout=600, env=None, java_opts
     with open(cfgp, "w") as f:
         f.write(cfg)
     dumparg = f"-dumpTrace json {dump}" if dump else ""
-    cmd = (f"timeout {timeout} java -XX:+UseParallelGC {java_opts} -cp {JARS}:{CLASSES} tlc2.TLC -workers {workers} "
+    cmd = (f"timeout {timeout} java -Djava.io.tmpdir={wd} -XX:+UseParallelGC {java_opts} -cp {JARS}:{CLASSES} tlc2.TLC -workers {workers} "
            f"-metadir {wd}/meta -cleanup -noGenerateSpecTE -config {cfgp} {dumparg} {extra} {module}")
     t0 = time.time()
     rc, out = sh(cmd, cwd=SPEC, env=env)
@@ -293,7 +293,7 @@ def validate(trace, consts, invariants, properties, name, known, parts=8, timeou
         os.makedirs(wd)
         with open(f"{wd}/model.cfg", "w") as f:
             f.write(cfg)
-        cmd = (f"timeout {timeout} java -XX:+UseSerialGC -Xss1g -Xmx3g -Dtlc2.tool.queue.IStateQueue=StateDeque -cp {JARS}:{CLASSES} "
+        cmd = (f"timeout {timeout} java -Djava.io.tmpdir={wd} -XX:+UseSerialGC -Xss1g -Xmx3g -Dtlc2.tool.queue.IStateQueue=StateDeque -cp {JARS}:{CLASSES} "
                f"tlc2.TLC -workers 1 -metadir {wd}/meta -cleanup -noGenerateSpecTE -config {wd}/model.cfg "
                f"-dumpTrace json {wd}/cex.json {module}")
         e = dict(os.environ)
